@@ -25,11 +25,11 @@ input symbol):
 
 * §6 `ptc_cover_group_presentation`: with C05's covering-space correspondence, the textbook
   orbifold group of the RETURNED COVER is isomorphic to that presentation (input
-  connected): its abelian invariants are [0,0,0].
+  connected): its abelian invariants are [0,0,0], and
+  `ptc_cover_has_H1_Z3`: `Abelianization (TGroup cov) ≃* ℤ³` (C14 `abelianization_free_of_expected`).
 
 Not theorems (Spec clauses on every explored case, `open_obligations` in conf/C15.json):
-existence for every euclidean symbol; numbering independence; the identification of `[0,0,0]` with `Abelianization ≃ Z³` in
-Mathlib's sense (uniqueness of the Smith form).
+existence for every euclidean symbol; numbering independence.
 -/
 import DSymVerif.Proofs.Delaney3d
 import DSymVerif.Proofs.Delaney3dOrders
@@ -589,8 +589,7 @@ theorem ptc_selected_subgroup_is_Z3_abelianised (s cov : DSymData) (hs : ValidTa
         f.range = (MulAction.stabilizer (Equiv.Perm (Fin t.size))
             (⟨0, (CosetP.valid_of_validTable hv).pos⟩ : Fin t.size)).comap
           (CosetP.actionHom (CosetP.valid_of_validTable hv))) ∧
-      ((∀ w ∈ srels, ∀ g ∈ w, Inv.InRange gens.length g) →
-        SpecC14.expected gens.length srels = [0, 0, 0]) := by
+      SpecC14.expected gens.length srels = [0, 0, 0] := by
   obtain ⟨oc, fg, t, hoc, _, _, _, _, hfg, hvt, _, hinv, hcov, hsize, _⟩ := ptc_result_is_cover s cov hs hsz hF h
   have hV := CosetP.valid_of_validTable hvt
   unfold stabilizerInvariants at hinv
@@ -600,7 +599,9 @@ theorem ptc_selected_subgroup_is_Z3_abelianised (s cov : DSymData) (hs : ValidTa
     · obtain ⟨f, _, hrange, hinj⟩ :=
         C13.stabilizer_presentation_iso t fg.genToEdge.length fg.relators hvt 0 hV.pos gens srels hst
       exact ⟨f, hinj, hrange⟩
-    · intro hin
+    · have hin : ∀ w ∈ srels, ∀ g ∈ w, Inv.InRange gens.length g :=
+        fun w hw g hg => C13.stabilizer_relators_letters t fg.genToEdge.length fg.relators hvt 0 hV.pos
+          gens srels hst w hw g hg
       have := C14.abelian_invariants_correct gens.length srels hin
       rw [hinv] at this
       exact (Outcome.ok.inj this).symm
@@ -679,8 +680,7 @@ theorem ptc_cover_group_is_selected_subgroup (s cov : DSymData) (hs : ValidSym s
         Nonempty (FGP.MGroup f' ≃* PresentedGroup (CosetP.relSet gens.length srels))) ∧
       Stab.stabilizer 0 fg.relators (Cosets.Table.ofView fg.nrGenerators t) = .ok (gens, srels) ∧
       Inv.abelianInvariants gens.length srels = .ok [0, 0, 0] ∧
-      ((∀ w ∈ srels, ∀ g ∈ w, Inv.InRange gens.length g) →
-        SpecC14.expected gens.length srels = [0, 0, 0]) := by
+      SpecC14.expected gens.length srels = [0, 0, 0] := by
   obtain ⟨oc, fg, t, hsoc, hdim, hfg, hV, gens, srels, hoc, hsize, hcov, hst, hinv, hidx, fT, hfTinj, hfTrange⟩ :=
     ptc_selected_subgroup_of_orbifold_group s cov hs hsz hF h
   obtain ⟨⟨_, _, _, _, _, _, dim3, _⟩⟩ := ptc_run s cov h
@@ -714,33 +714,35 @@ theorem ptc_cover_group_is_selected_subgroup (s cov : DSymData) (hs : ValidSym s
   obtain ⟨f', hf', ⟨eM⟩⟩ := C09.returned_group_is_textbook_group cov hcover.valid hcd
   refine ⟨oc, fg, t, hsoc, hdim, hfg, hV, gens, srels, hoc, hsize, hidx, ⟨eK⟩, ⟨eP⟩,
     ⟨f', hf', ⟨eM.trans eP⟩⟩, hst, hinv, ?_⟩
-  intro hin
+  have hin : ∀ w ∈ srels, ∀ g ∈ w, Inv.InRange gens.length g :=
+    fun w hw g hg => C13.stabilizer_relators_letters t fg.nrGenerators fg.relators
+      (RebaseP.validTable_of_valid hV) 0 hV.pos gens srels hst w hw g hg
   have := C14.abelian_invariants_correct gens.length srels hin
   rw [hinv] at this
   exact (Outcome.ok.inj this).symm
 
-/-- **ptc_cover_has_H1_Z3** (in the form reached).  The abelianisation of the orbifold group of
-    the returned cover is isomorphic to the abelianisation of the presented group
-    `⟨gens | srels⟩` returned by the model of `stabilizer`, and the abelian invariants of that
-    presentation — model value of `abelian_invariants`, and for relators over the generators the
-    determinantal-divisor definition `SpecC14.expected` (free rank = number of `0`s, torsion =
-    the other entries) — are `[0, 0, 0]`: free of rank 3, no torsion.  (The identification of
-    `SpecC14.expected = [0,0,0]` with `Abelianization ≃* ℤ³` as a Mathlib group isomorphism is the
-    classification theorem for finitely generated abelian groups applied to C14's Smith form; it
-    is requested from C14 and not part of this statement.) -/
+/-- **ptc_cover_has_H1_Z3.**  For a valid connected D-symbol (and `FuelOK`): whenever the model
+    of `pseudo_toroidal_cover` returns `Some(cov)`, **the abelianisation of the orbifold
+    fundamental group of the returned cover is ℤ³** — as a group isomorphism in Mathlib's sense:
+    `Abelianization (TGroup cov) ≃* Multiplicative (Fin 3 → ℤ)`, where `TGroup cov` is the textbook
+    orbifold group of C09 (which the model's own `fundamental_group(cov)` presents).
+    Chain: `TGroup cov ≃* K` (C05 covering-space correspondence) `≃* ⟨gens | srels⟩` (C13
+    `stabilizer_presentation_iso`, C09 `presents_orbifold_group`, re-indexing); the selection test
+    gives `abelian_invariants(gens, srels) = [0,0,0]`, which is `SpecC14.expected` (C14
+    `abelian_invariants_correct`, C13 `stabilizer_relators_letters`), and a presentation with
+    expected invariants `[0,0,0]` abelianises to ℤ³ (C14 `abelianization_free_of_expected`). -/
 theorem ptc_cover_has_H1_Z3 (s cov : DSymData) (hs : ValidSym s) (hsz : 1 ≤ s.size)
     (hF : ∀ oc fg, orientedCover s = .ok oc → FG.fundamentalGroup oc = .ok fg → FuelOK fg)
     (hconn : s.view.isConnected = true)
     (h : pseudoToroidalCover s = .ok (some cov)) :
-    ∃ (gens srels : List (List Int)),
-      Nonempty (Abelianization (FGP.TGroup cov) ≃*
-        Abelianization (PresentedGroup (CosetP.relSet gens.length srels))) ∧
-      Inv.abelianInvariants gens.length srels = .ok [0, 0, 0] ∧
-      ((∀ w ∈ srels, ∀ g ∈ w, Inv.InRange gens.length g) →
-        SpecC14.expected gens.length srels = [0, 0, 0]) := by
-  obtain ⟨_, _, _, _, _, _, _, gens, srels, _, _, _, _, ⟨eP⟩, _, _, hinv, hexp⟩ :=
+    Nonempty (Abelianization (FGP.TGroup cov) ≃* Multiplicative (Fin 3 → ℤ)) := by
+  obtain ⟨_, fg, t, _, _, _, hV, gens, srels, _, _, _, _, ⟨eP⟩, _, hst, _, hexp⟩ :=
     ptc_cover_group_is_selected_subgroup s cov hs hsz hF hconn h
-  exact ⟨gens, srels, ⟨MulEquiv.abelianizationCongr eP⟩, hinv, hexp⟩
+  have hin : ∀ w ∈ srels, ∀ g ∈ w, Inv.InRange gens.length g :=
+    fun w hw g hg => C13.stabilizer_relators_letters t fg.nrGenerators fg.relators
+      (RebaseP.validTable_of_valid hV) 0 hV.pos gens srels hst w hw g hg
+  obtain ⟨eZ⟩ := C14.abelianization_free_of_expected gens.length 3 srels hin (by rw [hexp]; rfl)
+  exact ⟨(MulEquiv.abelianizationCongr eP).trans eZ⟩
 
 /-- the presentation form (corollary) -/
 theorem ptc_cover_group_presentation (s cov : DSymData) (hs : ValidSym s) (hsz : 1 ≤ s.size)
@@ -749,8 +751,7 @@ theorem ptc_cover_group_presentation (s cov : DSymData) (hs : ValidSym s) (hsz :
     (h : pseudoToroidalCover s = .ok (some cov)) :
     ∃ (gens srels : List (List Int)),
       Inv.abelianInvariants gens.length srels = .ok [0, 0, 0] ∧
-      ((∀ w ∈ srels, ∀ g ∈ w, Inv.InRange gens.length g) →
-        SpecC14.expected gens.length srels = [0, 0, 0]) ∧
+      SpecC14.expected gens.length srels = [0, 0, 0] ∧
       Nonempty (FGP.TGroup cov ≃* PresentedGroup (CosetP.relSet gens.length srels)) := by
   obtain ⟨_, _, _, _, _, _, _, gens, srels, _, _, _, _, heP, _, _, hinv, hexp⟩ :=
     ptc_cover_group_is_selected_subgroup s cov hs hsz hF hconn h
@@ -793,8 +794,7 @@ def SubgroupFacts (s cov : DSymData) : Prop :=
       f.range = (MulAction.stabilizer (Equiv.Perm (Fin t.size))
           (⟨0, (CosetP.valid_of_validTable hv).pos⟩ : Fin t.size)).comap
         (CosetP.actionHom (CosetP.valid_of_validTable hv))) ∧
-    ((∀ w ∈ srels, ∀ g ∈ w, Inv.InRange gens.length g) →
-      SpecC14.expected gens.length srels = [0, 0, 0])
+    SpecC14.expected gens.length srels = [0, 0, 0]
 
 /-- both, for every returned cover -/
 theorem ptc_certificate (s cov : DSymData) (hs : ValidTables s) (hsz : 1 ≤ s.size)
